@@ -88,7 +88,7 @@ def confirm(d):
 def run(seed_id, props, tier):
     d = os.path.join(VERIF, "seeded", seed_id)
     meta = json.load(open(os.path.join(d, "meta.json")))
-    props = props or [meta["property"]]
+    props = props or ([meta["property"]] + list(meta.get("also_check", [])))
     ensure_wt()
     apply(os.path.join(d, "patch.diff"))
     out = {}
